@@ -1078,6 +1078,8 @@ class Engine:
                         self.run.pc.append(z3bool(p.cond()))
                         self.solver.add(z3bool(p.cond()))
                         raise PanicEx(p.panic.site, p.panic.msg)
+                if self.run.assumed or self.any_assumed:
+                    raise InfeasiblePath()
                 raise Inconclusive('panic summary inconsistent')
         if not rets:
             raise Inconclusive('summarised callee %s never returns' % fn.name)
